@@ -7,6 +7,7 @@
 #include "bee2/defs.h"
 #include "bee2/core/mem.h"
 #include "bee2/core/err.h"
+#include "bee2/core/blob.h"
 #include "bee2/crypto/bign.h"
 #include "bee2/crypto/bake.h"
 #include "bee2/crypto/btok.h"
@@ -61,6 +62,31 @@ err_t x_bake_certval2(octet* pubkey, const bign_params* params,
 	if (pubkey)
 		memcpy(pubkey, data, params->l / 2);
 	return ERR_OK;
+}
+
+/* a validator that works on a copy of the certificate, as a parser of a real certificate format would: one allocation per call */
+err_t x_bake_certval_alloc(octet* pubkey, const bign_params* params,
+	const octet* data, size_t len)
+{
+	err_t code;
+	octet* copy;
+	if (!memIsValid(data, len))
+		return ERR_BAD_CERT;
+	copy = (octet*)blobCreate(len + 1);
+	if (!copy)
+		return ERR_OUTOFMEMORY;
+	memcpy(copy, data, len);
+	code = x_bake_certval(pubkey, params, copy, len);
+	blobClose(copy);
+	return code;
+}
+
+/* a validator that does not accept the certificate */
+err_t x_bake_certval_reject(octet* pubkey, const bign_params* params,
+	const octet* data, size_t len)
+{
+	(void)pubkey, (void)params, (void)data, (void)len;
+	return ERR_BAD_CERT;
 }
 
 void x_bake_cert2(bake_cert* c, octet* data, size_t len)
